@@ -97,6 +97,12 @@ func x02Build(v V) *x02Node {
 			n.val = lf[0].L[1].Str()
 		case 3:
 			n.val = lf[0].L[1].Bool()
+		case 4:
+			xs := make([]int, len(lf[0].L[1].L))
+			for i, x := range lf[0].L[1].L {
+				xs[i] = x.Int()
+			}
+			n.val = xs
 		default:
 			x02Fatal("bad leaf value")
 		}
@@ -212,7 +218,7 @@ func x02Key(op string, n *x02G, rootNil bool) string {
 		return ""
 	}
 	ks := ""
-	for _, c := range []byte("0123") {
+	for _, c := range []byte("01234") {
 		if lk[c] {
 			ks += string(c)
 		}
@@ -260,6 +266,12 @@ func x02Leaf(g *Gen) string {
 		return L("1", x02Pick(g, "0", "9", "10", "-1", "9223372036854775807", "-9223372036854775808", "99", "100", "-100"))
 	case 4:
 		return L("3", Int(g.R.Intn(2)))
+	case 5:
+		xs := make([]string, g.R.Intn(4))
+		for i := range xs {
+			xs[i] = Int(g.R.Intn(201) - 100)
+		}
+		return L("4", L(xs...))
 	default:
 		return L("2", Str(x02Text(g, 6)))
 	}
